@@ -138,6 +138,9 @@ def st_case(draw):
                     mem.append(_m("p", "setter", False, draw(st_small_decos(ids, "setter"))))
                 if draw(st.booleans()):
                     mem.append(_m("p", "deleter"))
+            if draw(st.integers(0, 3)) == 0:
+                # a Python-defined __getattr__ is a special method like any other (called explicitly by the histories)
+                mem.append(_m("__getattr__", "method"))
             if draw(st.integers(0, 2)) == 0:
                 mem.append(_m("__repr__", "repr"))
             if draw(st.integers(0, 4)) == 0:
